@@ -187,8 +187,8 @@ fn main() {
             &opts,
             &CheckSpec {
                 harness_name: "h_db",
-                level: "exploration",
-                rule: "one evaluation = one run in which a lifecycle transition (close_collection, Collection::close, set_read_only on collection/database, delete_collection, db.close) races 1-3 queued or in-flight operations under a seeded schedule; oracles at the storage seam (mutation log) and on return values; distinct = distinct schedule signatures with overlapping calls",
+                level: "fault_enumeration",
+                rule: "cancel phase: one evaluation = one (prefix, target call, suspension point k) with the target future dropped at k, k enumerated completely per sampled (prefix, target); lifecycle phase: one evaluation = one run in which a lifecycle transition (close_collection, Collection::close, set_read_only on collection/database, delete_collection, db.close) races 1-3 queued or in-flight operations under a seeded schedule; oracles at the storage seam (mutation log) and on return values; distinct = distinct schedule signatures with overlapping calls",
                 real: REAL,
                 stub: STUB,
                 assumptions: &["for plain read-only, calls admitted before the flag was set are exempt (the statement speaks of queued calls)"],
